@@ -14,9 +14,11 @@ expression.  Every return bit is mapped to a qubit, with and without final uncom
 
 `C02_statement` below is the full property about the compiler model.  The model follows the
 compiler with the repairs of the uncomputation protocol (`docs/fixes/CC-*.diff`; before them the
-statement was false, see the `fixed` entries of `known_findings.json`).  No failing compilation is
-known for the repaired compiler, but `C02_statement` is not proved in general; what is proved here
-is (partial):
+statement was false, see the `fixed` entries of `known_findings.json`).  As stated it is still false
+(a return name that is never bound; `b = a; a = Not(a)`, a new finding; model-only degenerate
+expressions – see `C02_general_partial` at the end of the file, which proves the property on the general
+class: every definition list with cache hits, shared sub-expressions across statements and re-binding,
+with these cases excluded by a decidable predicate).  What is proved here is (partial):
 
 * `validate_sound` – the per-instance validator used by the check is sound for *all* inputs:
   a compiled instance that passes it satisfies the property on every input basis state.  The
